@@ -86,3 +86,28 @@ PROPS['C01']['units'] = [('u_pair.rs', 'B', None)]
 PROPS['C01']['trusted'] = PAIR_TRUST
 PROPS['C01']['min_tagged'] = 8
 PROPS['C01']['assumptions'] = [T_CHAIN, 'router entry reaches swap only through the pair entry points proved here (router contracts: C13)']
+
+T_R6 = "rewrite R6': `.into_iter().map(closure capturing &mut).collect::<StdResult<Vec<_>>>()?` and `for x in v.into_iter().rev()` are unrolled into the equivalent explicit loops (declared rewrites listed per function); iteration order and early-exit-on-first-error are preserved"
+T_ROUTERQ = 'router-side cross-contract queries (factory Pair query, pair Simulation / ReverseSimulation queries) are uninterpreted functions of the chain state (pair_of, sim_return, rev_offer): what those queries return is proved on the pair / factory side'
+T_HASH = 'std HashMap<String,bool>: vstd hash-map specs plus two admitted axioms (a String is determined by its characters; String obeys the hash key model); HashMap::keys().len() rewritten to HashMap::len()'
+ROUTER_TRUST = [T_VERUS, T_UINT128, T_CW, T_API, T_STORE, T_QUERY, T_SERDE, T_DERIVE2, T_R4, T_R2, T_R6, T_ROUTERQ, T_HASH]
+
+PROPS['C11'] = dict(
+    units=[('u_router.rs', 'B', ['router'])], min_tagged=8, trusted=ROUTER_TRUST,
+    assumptions=[T_CHAIN, 'messages of one transaction are executed in order and the whole transaction reverts if any of them fails (CosmWasm semantics for plain messages)'],
+    explanation='execute_swap_operations (both entry points) emits one self-call per hop followed, when minimum_receive is given, by exactly one AssertMinimumReceive{asset = ask of the last hop, prev_balance = recipient balance at acceptance, minimum_receive, receiver = to or sender} and nothing after it; assert_minium_receive returns Ok only if called by the router itself and balance >= prev_balance + minimum_receive (checked_sub makes a decrease an error).',
+)
+PROPS['C13'] = dict(
+    units=[('u_router.rs', 'B', ['router'])], min_tagged=12, trusted=ROUTER_TRUST,
+    assumptions=[T_CHAIN, 'distinct pairs / router holding none of the route assets are hypotheses of the statement; that hop k+1 receives exactly what hop k paid follows from the pair contracts (C02) and the chain model, not from a machine-checked composition'],
+    explanation='empty routes are rejected; assert_operations accepts iff the remove-offer/insert-ask fold leaves exactly one asset; hop k is a self-call carrying operation k and the final recipient only on the last hop; execute_swap_operation (router-only) offers exactly the router\'s whole balance of the offer asset to the factory-registered pair with to passed through; asset_into_swap_msg builds the native / cw20-send swap message; route simulations are the hop-by-hop folds of the pair queries.',
+)
+PROPS['C12']['units'] = [('u_pair.rs', 'B', None), ('u_router.rs', 'B', ['router'])]
+PROPS['C12']['trusted'] = sorted(set(PAIR_TRUST + ROUTER_TRUST))
+PROPS['C12']['assumptions'] = [T_CHAIN]
+
+PROPS['C07'] = dict(
+    units=[('u_pair.rs', 'B', None), ('u_router.rs', 'B', ['router'])], min_tagged=20, trusted=sorted(set(PAIR_TRUST + ROUTER_TRUST)),
+    assumptions=[T_CHAIN, 'ledger effect of each emitted message (bank send moves coins from the emitting contract only; cw20 transfer/transfer_from/mint/burn/send move only the named owner/recipient balances and the supply) is the documented behaviour of the bank module and cw20-base 1.0.0, not verified here'],
+    explanation='Frame contracts: every state-changing pair / router handler carries a postcondition that pins its ENTIRE message list (swap: at most one transfer of the ask asset from the pair to the receiver; withdraw: two refunds to the hook sender + burn of exactly a; provide: TransferFrom(owner = caller, recipient = pair, declared amount) per cw20 asset + mint(s) on the LP token of exactly the computed share; router: self-calls per hop, one swap message spending only the router\'s own balance, assertion message) and leaves storage untouched. No other message can be emitted, so no third-party balance is named anywhere.',
+)
